@@ -46,8 +46,43 @@ def _regexes(rng, modules):
 def _partials(rng, modules):
     names = [dotted(m) for m in modules]
     n = rng.choice(names)
+    alike = _dot_lookalikes(modules)
+    if alike and rng.random() < 0.7:
+        n = rng.choice(alike)
     last = n.rsplit(".", 1)[-1]
-    return [n, "*" + last, n[: max(1, len(n) - 1)] + "*", "*" + last[:1] + "*", "*." + last, "nomatch_zzz"]
+    tail2 = ".".join(n.split(".")[-2:])
+    return [n, n, "*" + last, n[: max(1, len(n) - 1)] + "*", "*" + last[:1] + "*", "*." + last, "*" + tail2, tail2 + "*",
+            "*" + tail2 + "*", "nomatch_zzz"]
+
+
+# components that are look-alikes of dotted names: 'r.a.b' next to 'r.a_b' / 'r.axb' - a dot of a partial name (or of an
+# escaped regex) that is read as a wildcard matches the sibling as well
+LOOKALIKE_POOL = ["a", "b", "c", "a_b", "axb", "a_c", "axc", "b_c", "bxc", "a_b_c", "ab", "d"]
+
+
+def with_lookalikes(rng, w):
+    """Make sure the world has a dotted name with a look-alike sibling (p.a.b next to p.a_b / p.axb), both importing
+    and imported differently, so that confusing the two changes verdicts."""
+    from harness.world import World, candidate_imports
+    p = rng.choice([m for m in w.modules if len(m) <= 3])
+    x, y = rng.choice([("a", "b"), ("b", "c"), ("a", "c")])
+    extra = [p + (x,), p + (x, y), p + (f"{x}{rng.choice('_x')}{y}",)]
+    mods = sorted(set(w.modules) | set(extra))
+    cand = [e for e in candidate_imports(mods) if e[0] in extra[1:] or e[1] in extra[1:]]
+    return World(mods, list(w.imports) + rng.sample(cand, min(len(cand), rng.randint(1, 4))))
+
+
+def _dot_lookalikes(modules):
+    """Names that some other module's name equals up to the characters at this name's dots."""
+    names = [dotted(m) for m in modules]
+    out = []
+    for n in names:
+        dots = [i for i, ch in enumerate(n) if ch == "."]
+        for o in names:
+            if o != n and len(o) == len(n) and all(a == b or i in dots for i, (a, b) in enumerate(zip(n, o))):
+                out.append(n)
+                break
+    return out
 
 
 def specs_for(ctx):
@@ -56,7 +91,11 @@ def specs_for(ctx):
     counts = {"regex": 0, "partial": 0, "batch": 0}
     n_worlds = 120 if ctx.quick else 2500
     for _ in range(n_worlds):
-        w = random_world(rng, n_modules=rng.randint(5, 18), n_imports=rng.randint(3, 40))
+        lookalike = rng.random() < 0.4
+        w = random_world(rng, n_modules=rng.randint(5, 18), n_imports=rng.randint(3, 40),
+                         pool=LOOKALIKE_POOL if lookalike else None)
+        if lookalike:
+            w = with_lookalikes(rng, w)
         ep = RuleEpisode(w)
         mods = w.modules
         for _k in range(14):
